@@ -1,9 +1,13 @@
 #!/bin/bash
-# Builds the whole Coq development (full .vo build) and the extracted models. Offline.
+# Builds the whole Coq development (full .vo build, never -vos) and the extracted models. Offline.
 set -e
-cd "$(dirname "$0")/coq"
-mkdir -p _gen _build
-coq_makefile -f _CoqProject -o Makefile
-timeout 7000 make -j"$(nproc)" 2>&1 | grep -v "^Closed under\|^COQ\|^Axioms:\|^  " || true
-make -j"$(nproc)" >/dev/null   # fail here if anything is broken
+cd "$(dirname "$0")"
+mkdir -p coq/_gen coq/_build evidence
+PYTHONPATH=harness /venv/bin/python - <<'PY'
+import sys, common
+ok, out = common.coq_make([], timeout=7000)
+lines = [l for l in out.splitlines() if not l.startswith(("Closed under", "COQC", "COQDEP", "Axioms:", "  "))]
+print("\n".join(lines[-40:]))
+sys.exit(0 if ok else 1)
+PY
 echo "coq build ok"
